@@ -892,10 +892,8 @@ func (p *prop) runScenario(sc scenario) (core.Outcome, string) {
 		fmt.Fprintf(os.Stderr, "traffic ok=%d refused=%d reset=%d broken=%d stale=%d fails %v\n", r.traffic.ok, r.traffic.refused, r.traffic.reset, r.traffic.broken, r.traffic.stale, r.fails)
 	}
 	verdict := "accept"
-	for _, f := range r.fails {
-		if f.Class != "connection-dropped-by-aborted-http-start" { // known finding: timing dependent, the model cannot predict it
-			verdict = "oracle-fail"
-		}
+	if len(r.fails) > 0 {
+		verdict = "oracle-fail"
 	}
 	tags := r.tags()
 	if r.traffic.ok > 0 {
